@@ -148,6 +148,7 @@ func writeEvidence(spec *Spec, tier string, seed int64, results []*instResult, w
 				sampleSMT = sampleSMT[:6000] + "\n; ... truncated"
 			}
 		}
+		_ = 0
 		reached := map[string]bool{}
 		for _, q := range r.queries {
 			if q.Kind == "reach" && q.Status == "sat" {
